@@ -36,7 +36,8 @@ Next == /\ i < Len(T[tr].ev)
                                           /\ shown >= result)                  \* ResultMonotone
                         /\ UNCHANGED <<countIncs, begun>>
                   [] e[1] = "end" ->
-                        /\ ok' = (e[3] + e[4] = Total /\ countIncs = Total)    \* Conserved
+                        /\ ok' = (/\ e[3] + e[4] = Total /\ countIncs = Total  \* Conserved
+                                  /\ e[5] = TRUE)   \* and the lifetime mean/min/max cover exactly the recorded durations
                         /\ result' = e[3] + e[4]
                         /\ UNCHANGED <<countIncs, begun, active>>
                   [] OTHER -> ok' = TRUE /\ UNCHANGED <<countIncs, begun, result, active>>
